@@ -241,6 +241,7 @@ package stage
 //@   before call os.Rename assert not-ready-for-duration: ncalls((*Stage).setCanReceive) == 1 && lastarg((*Stage).setCanReceive, 1) == false
 //@   before call os.Remove assert not-ready-for-duration: ncalls((*Stage).setCanReceive) == 1 && lastarg((*Stage).setCanReceive, 1) == false
 //@   before call (*Stage).toCache assert not-ready-for-duration: ncalls((*Stage).setCanReceive) == 1 && lastarg((*Stage).setCanReceive, 1) == false
+//@   before call (*Stage).buildCache assert delivery-record-reaches-back-the-retention: arg1 <= oldest - cacheAgeLogged
 //@   before call (*Stage).buildCache assert not-ready-for-duration: ncalls((*Stage).setCanReceive) == 1 && lastarg((*Stage).setCanReceive, 1) == false
 //@   before store finalize assert wait-body-is-finalized: lastarg(os.Stat, 0) == base+waitExt && !os.IsNotExist(lastret(os.Stat, 1)) && ncalls(os.Stat) == 1
 //@   before store validate assert full-or-complete-is-validated: (ncalls(os.Stat) == 2 && lastarg(os.Stat, 0) == base+fullExt && !os.IsNotExist(lastret(os.Stat, 1))) || (ncalls(os.Stat) >= 3 && called(isCompanionComplete) && lastret(isCompanionComplete, 0) && lastarg(isCompanionComplete, 0) == cmp && called(os.Rename) && lastret(os.Rename, 0) == nil && lastarg(os.Rename, 1) == base+fullExt)
